@@ -1208,11 +1208,12 @@ func (w *world) obsDigest(res int, wl bool, allQ []query, h uint64) uint64 {
 	return h
 }
 
-func runExhaustive(length int, wl bool) {
+func runExhaustive(length int, wl bool, group int) {
 	sc := exhaustiveScenario()
 	al := exhaustiveAlphabet()
 	allQ := sc.allQueries()
 	digests := make([]uint64, len(al))
+	var perHist []uint64 // digests of the single histories of -group
 	count := 0
 	var rec func(prefix []opx, depth int, acc *uint64)
 	rec = func(prefix []opx, depth int, acc *uint64) {
@@ -1224,6 +1225,9 @@ func runExhaustive(length int, wl bool) {
 			}
 			*acc = dmix(*acc, h)
 			count++
+			if group >= 0 {
+				perHist = append(perHist, h)
+			}
 			return
 		}
 		for _, o := range al {
@@ -1231,6 +1235,9 @@ func runExhaustive(length int, wl bool) {
 		}
 	}
 	for i, o := range al {
+		if group >= 0 && i != group {
+			continue
+		}
 		acc := uint64(0)
 		rec([]opx{o}, 1, &acc)
 		digests[i] = acc
@@ -1241,7 +1248,7 @@ func runExhaustive(length int, wl bool) {
 		jal = append(jal, o.json())
 	}
 	emit(map[string]interface{}{"kind": "exhaustive", "universe": u, "strs": strs, "pools": sc.jPools(), "names": sc.nNames,
-		"alphabet": jal, "len": length, "digests": digests, "histories": count, "with_lookups": wl})
+		"alphabet": jal, "len": length, "digests": digests, "histories": count, "with_lookups": wl, "group": group, "history_digests": perHist})
 }
 
 // ---------------------------------------------------------------- mode shared (F7)
@@ -1532,6 +1539,7 @@ func main() {
 	step := flag.Int("step", 0, "step index for -mode detail")
 	spec := flag.String("spec", "", "JSON {qs, los} for -mode detail (default: all queries, default options)")
 	first := flag.Int("first", 0, "index of the first history")
+	group := flag.Int("group", -1, "-mode exhaustive: only the histories starting with this operation, one digest per history")
 	file := flag.String("file", "", "case file for -mode replay")
 	flag.IntVar(&bigMax, "bigmax", 5000, "largest batch size used in the big-batch histories")
 	neOnly := flag.Bool("ne", false, "-mode detail: only graph objects that hold triples (as the C09 digests)")
@@ -1544,7 +1552,7 @@ func main() {
 			emit(out)
 		}
 	case "exhaustive":
-		runExhaustive(*length, *c02)
+		runExhaustive(*length, *c02, *group)
 	case "detail":
 		runDetail(*seed, *hist, *step, *maxops, *usize, *spec, *neOnly)
 	case "shared":
